@@ -2,8 +2,9 @@
     Executable model (no proofs here).
     Anchors: scattering/imageformation.py (_transform_to_desired_coordinates, _get_field_from),
     core/math.py (transform_cartesian_to_spherical / _cylindrical), theory/mie_f/mieangfuncs.f90
-    (incfield, calc_scat_field, fieldstocart, radial_vect_to_cart, mie_fields, tmatrix_fields),
-    theory/tmatrix.py (raw_fields: postfactor), theory/mielens.py (raw_fields) +
+    (incfield, calc_scat_field, fieldstocart, radial_vect_to_cart, mie_fields, tmatrix_fields: the same
+    assembly serves Multisphere; theory/tmatrix.py's own recombination is property C10's),
+    theory/mielens.py (raw_fields) +
     mielensfunctions.py (_calculate_small_krho_scattered_field), theory/lens.py (_integrand_prll/_perp,
     _compute_integral, _transform_integral_from_lr_to_xyz, _compute_field_phase),
     theory/multisphere.py (_scsmfo_setup: centring), scatterer/spherecluster.py (Spheres.center).
@@ -83,17 +84,6 @@ Definition mie_assemble (S : smat) (pref erad : cplx T) (ct st cp sp : T) (pol :
   let einc := incfield pol cp sp in
   cv_add O (fieldstocart (calc_scat_field pref S einc) ct st cp sp)
            (radial_to_cart (cscale O (fst einc) erad) ct st cp sp).
-(** tmatrix.py raw_fields: S . [[cos phi, sin phi], [-sin phi, cos phi]], polarisation fixed to (1,0).
-    [M] = (m11, m12, m21, m22) is scat_matr[i] as returned by _run_tmat *)
-Definition tm_postfactor (M : smat) (cp sp : T) : smat :=
-  let '(m11, m12, m21, m22) := M in
-  (* result rows: [m11 cp - m12 sp, m11 sp + m12 cp], [m21 cp - m22 sp, m21 sp + m22 cp],
-     stored as (S1, S2, S3, S4) = (row2 col2, row1 col1, row1 col2, row2 col1) *)
-  (cadd O (cscale O sp m21) (cscale O cp m22), csub (cscale O cp m11) (cscale O sp m12),
-   cadd O (cscale O sp m11) (cscale O cp m12), csub (cscale O cp m21) (cscale O sp m22)).
-Definition tmatrix_assemble (M : smat) (pref : cplx T) (ct st cp sp : T) : cvec3 T :=
-  fieldstocart (calc_scat_field pref (tm_postfactor M cp sp) (incfield (one O, zero O) cp sp)) ct st cp sp.
-
 (** * 4. MieLens (mielens.py raw_fields + _calculate_small_krho_scattered_field) *)
 Definition half : T := inv O (one O + one O).
 (** parallel / perpendicular components from the pupil integrals and cos, sin of 2(phi - pol_angle) *)
